@@ -4,7 +4,7 @@
    compares with the committed pin (Properties/pins/C09.txt) so that a statement cannot be weakened
    silently; `Print Assumptions` lists the axioms it depends on (none are declared by this development). *)
 From Coq Require Import NArith List Bool String.
-From Octo Require Import Model.UdpTables Model.SaltCache Proofs.UdpTableFacts Proofs.SaltCacheFacts Generated.Shared.
+From Octo Require Import Model.UdpTables Model.SaltCache Proofs.UdpTableFacts Proofs.SaltCacheFacts Generated.Shared Generated.UdpAdapters Model.UdpAdapters Proofs.UdpAdapterFacts Proofs.UdpAdapterTableFacts.
 Import ListNotations.
 Set Printing Width 200.
 
@@ -46,6 +46,31 @@ Theorem C09_static_cache_is_mutex :
                     || (match index 0 "Mutex<" (snd e) with Some _ => true | None => false end)) shared_inventory = true.
 Proof. vm_compute. reflexivity. Qed.
 
+(* shared binding table, adapter tables regenerated from the source - two targets of one application never collide on a binding, the target travels with every datagram or is part of the binding key (and the outbound is made for it) *)
+Definition C09_adapters_target := @target_reaches_wire_or_key.
+(* after any interleaved history a datagram goes out on a live binding of its own sender and the server will send it to its own target *)
+Definition C09_adapters_datagram_reaches_target := @datagram_reaches_addressed_target.
+(* a reply label taken from the shared binding is only used where the binding key contains the target *)
+Definition C09_adapters_label := @label_is_replying_target.
+(* after any interleaved history a reply is labelled with the reported source or with the one and only target its binding has sent to *)
+Definition C09_adapters_reply_labelled := @reply_labelled_with_replier.
+(* shared association table - equal keys mean equal client session, equal user (and equal client address without replay protection) *)
+Definition C09_adapters_assoc_key := @assoc_key_separates_sessions_and_users.
+(* sensitivity, vmess bindings keyed by the sender only - delivery to the wrong target *)
+Definition C09_WITNESS_R1 := @R1_datagram_reaches_target_refuted.
+(* sensitivity, shadowsocks labelling with the binding target - wrong label *)
+Definition C09_WITNESS_R2 := @R2_reply_labelled_with_replier_refuted.
+(* sensitivity, association key without the user - two users share an association *)
+Definition C09_WITNESS_R3 := @R3_users_share_an_association.
+
+Check @C09_adapters_target.
+Check @C09_adapters_datagram_reaches_target.
+Check @C09_adapters_label.
+Check @C09_adapters_reply_labelled.
+Check @C09_adapters_assoc_key.
+Check @C09_WITNESS_R1.
+Check @C09_WITNESS_R2.
+Check @C09_WITNESS_R3.
 Check @C09_flows_commute.
 Check @C09_flow_alone.
 Check @C09_same_salt_exactly_one.
@@ -62,3 +87,11 @@ Print Assumptions C09_WITNESS_try_lock.
 Print Assumptions C09_WITNESS_check_then_insert.
 Print Assumptions C09_inventory_protected.
 Print Assumptions C09_static_cache_is_mutex.
+Print Assumptions C09_adapters_target.
+Print Assumptions C09_adapters_datagram_reaches_target.
+Print Assumptions C09_adapters_label.
+Print Assumptions C09_adapters_reply_labelled.
+Print Assumptions C09_adapters_assoc_key.
+Print Assumptions C09_WITNESS_R1.
+Print Assumptions C09_WITNESS_R2.
+Print Assumptions C09_WITNESS_R3.
